@@ -191,6 +191,8 @@ func runC13(c *Check) {
 
 	ruleJoinDiscipline(c, p, run, spawn)
 	ruleLockset(c, p, distinct, reach)
+	c.Doc("C13-R6", "VP+EO: contexts handed to other layers derive from the worker's context parameter.")
+	ruleContextProvenance(c, p, distinct, depth)
 }
 
 // blockingOp classifies node n. kind == "" if it is not a blocking operation.
@@ -728,4 +730,81 @@ func lockHeldInterproc(p *Prog, fn *ssa.Function, in ssa.Instruction, mu string,
 		}
 	}
 	return callers > 0
+}
+
+// ruleContextProvenance (C13-R6): every call into another layer (executor, sequencer, DA, P2P
+// store) reachable from a worker root is given a context derived from the root's own context
+// parameter — directly, through context.With*/errgroup.WithContext, or through a field that the
+// root assigns from that parameter before the call. A constructor-time or background context is
+// not cancelled by the node's stop request.
+func ruleContextProvenance(c *Check, p *Prog, roots []workerRoot, depth int) {
+	rule := "C13-R6"
+	external := func(name string) bool {
+		for _, s := range []string{"core/execution.Executor).", "core/sequencer.Sequencer).", "core/da.DA).", "go-header.Store["} {
+			if strings.Contains(name, s) {
+				return true
+			}
+		}
+		return false
+	}
+	n := 0
+	for _, r := range roots {
+		var rootCtx *ssa.Parameter
+		for _, prm := range r.fn.Params {
+			if prm.Type().String() == "context.Context" {
+				rootCtx = prm
+			}
+		}
+		if rootCtx == nil {
+			c.Unk(rule, fnShort(r.fn)+" ⟂ ctx-param", fnName(r.fn), "", "worker root without a context parameter")
+			continue
+		}
+		g := BuildECFG(p, r.fn, ExpandOpts{MaxDepth: depth})
+		c.NoteGraph(g)
+		fromRoot := func(t *Term) bool {
+			return t.Contains(func(x *Term) bool { return x.Op == "param" && x.V == ssa.Value(rootCtx) })
+		}
+		seen := map[ssa.Instruction]bool{}
+		for _, nd := range g.Nodes {
+			if !g.Live()[nd] || seen[nd.In] {
+				continue
+			}
+			cc := CallCommonOf(nd)
+			if cc == nil || !cc.IsInvoke() || !external(CallName(nd)) || len(cc.Args) == 0 || cc.Args[0].Type().String() != "context.Context" {
+				continue
+			}
+			seen[nd.In] = true
+			n++
+			t := ArgTerm(nd, 0)
+			inst := fnShort(r.fn) + " ⟂ " + shortName(CallName(nd)) + " in " + genericName(fnShort(nd.Ctx.Fn))
+			if fromRoot(t) {
+				c.OK(rule, inst, fnName(nd.Ctx.Fn), p.InstrPos(nd.In), "context derived from the worker's context parameter", true)
+				continue
+			}
+			// a field holding the context: assigned from the root's parameter before this call?
+			okField := false
+			if t.Op == "field" {
+				stores := g.Select(func(x *Node) bool {
+					st, ok := x.In.(*ssa.Store)
+					if !ok {
+						return false
+					}
+					at := TermOf(st.Addr, x.Ctx)
+					return at.Op == "field" && at.String() == t.String() && fromRoot(TermOf(st.Val, x.Ctx))
+				})
+				nn := nd
+				if len(stores) > 0 && g.PathAvoiding([]*Node{g.Entry}, func(x *Node) bool { return x == nn }, nodeSet(stores)) == nil {
+					okField = true
+				}
+			}
+			if okField {
+				c.OK(rule, inst, fnName(nd.Ctx.Fn), p.InstrPos(nd.In), "context field "+t.String()+" is assigned from the worker's context parameter before the call", true)
+			} else {
+				c.Bad(rule, inst, fnName(nd.Ctx.Fn), p.InstrPos(nd.In), "the context handed to another layer ("+trunc(t.String(), 80)+") does not derive from the worker's context: a stop request does not interrupt this call, the worker does not return and Run hangs in wg.Wait", nil)
+			}
+		}
+	}
+	if n < 10 {
+		c.Unk(rule, "external-calls", "", "", fmt.Sprintf("anchor lost: %d context-taking calls into other layers found under the worker roots", n))
+	}
 }
